@@ -73,6 +73,8 @@ type interpreter struct {
 	lastFrame        *frame
 	sampleCtr        int
 	aliased          map[*ssa.Global]bool
+	guards           map[*gmap]*value
+	guardNames       map[*gmap]string
 }
 
 var hooksUsedMu sync.Mutex
@@ -94,6 +96,35 @@ type monitor struct {
 }
 
 func (m *monitor) lockEvent(i *interpreter, kind string, p *value) {}
+
+// guardCheck is called on every operation on a map: if the harness declared the map as
+// guarded by a mutex (vfGuardMap), the mutex must be held - write-locked for updates,
+// at least read-locked for reads - otherwise a lock-discipline violation is recorded.
+func (i *interpreter) guardCheck(m *gmap, write bool, what string) {
+	if m == nil || len(i.guards) == 0 {
+		return
+	}
+	mu, ok := i.guards[m]
+	if !ok {
+		return
+	}
+	st := i.locks[mu]
+	if (write && st != -1) || (!write && st == 0) {
+		name := i.guardNames[m]
+		mode := "read"
+		if write {
+			mode = "write"
+		}
+		msg := fmt.Sprintf("%s access (%s) to %s without holding its mutex", mode, what, name)
+		if debugOn {
+			msg += "\n" + i.stack()
+		}
+		func() {
+			defer func() { recover() }()
+			i.recordViolation("lock: "+name, msg, i.currentModel())
+		}()
+	}
+}
 
 type deferred struct {
 	fn    value
@@ -494,6 +525,7 @@ func visitInstr(fr *frame, instr ssa.Instruction) continuation {
 		if itf, ok := key.(iface); ok && itf.t != nil && !comparableType(itf.t) {
 			panic(i.rtPanic("hash of unhashable type " + itf.t.String()))
 		}
+		i.guardCheck(m, true, "store")
 		m.insert(i, key, fr.get(instr.Value))
 
 	case *ssa.TypeAssert:
@@ -1033,6 +1065,8 @@ func (i *interpreter) resetSideTables() {
 	i.locks = map[*value]int{}
 	i.pools = map[*value][]value{}
 	i.extState = map[string]interface{}{}
+	i.guards = map[*gmap]*value{}
+	i.guardNames = map[*gmap]string{}
 }
 
 // resetForPath restores the initial state of the packages under test.
